@@ -120,6 +120,24 @@ CHECKS = {
         "Trusts vp/relational.py; bodies range over non-null child columns; SQLite only.",
         "DESIGN.md §6 C04",
     ),
+    "C18": (
+        "exhaustive function x argument-kind table + Hypothesis typed-grammar generation; oracle from an independent copy of the OData return-type table",
+        "Every built-in function with every admissible argument-kind combination (literal, field, call, arithmetic, "
+        "list) and every operator class is enumerated, plus thousands of typed terms whose type the generator knows by "
+        "construction; infer_type must answer None or the expected class, typecheck must accept well-typed nodes and "
+        "reject literals of a kind outside the allowed set.",
+        "Trusts vp/spec_tables.py and c18.SIGS (hand-copied from the OData function definitions).",
+        "DESIGN.md §6 C18",
+    ),
+    "C20": (
+        "Hypothesis rule-based state machine over shared lexer/parser instances (histories incl. raising inputs, abandoned and interleaved token generators) + child processes over hash seeds x import orders; invariant: shared = fresh",
+        "Histories of parse calls (valid, tokenising/parsing/function errors), abandoned tokenizer generators, "
+        "interleaved token pulls on two instances and AliasRewriter construction run against one shared pair; after "
+        "every step the shared pair's outcome on a probe must equal a fresh pair's. Separate child processes with "
+        "different PYTHONHASHSEED values and import orders must hash a generated corpus of outcomes identically.",
+        "Single-threaded interleavings only; outcome equality is repr of the AST or exception class + message.",
+        "DESIGN.md §6 C20",
+    ),
 }
 
 ALL = ["C%02d" % i for i in range(1, 21)]
